@@ -1110,6 +1110,8 @@ class Interp:
         if attr in heap:
             self.emit('attr_read', node, obj=base, attr=attr, value=heap[attr])
             return heap[attr]
+        if base.nt_fields and attr in base.nt_fields:
+            return base.nt_fields[attr]  # immutable record built elsewhere (module-level table): its fields travel with the value
         if ci is None:
             return TOP
         fi = self.p.find_method(ci, attr)
@@ -1289,6 +1291,8 @@ class Interp:
             self.call_function(init, args, kwargs, st, self_av=obj, node=n)
         elif ci.is_dataclass or any(c.is_dataclass for c in self.p.mro(ci)[0]):
             self.model.dataclass_init(self, st, obj, ci, args, kwargs, n)
+            if ci.is_namedtuple and obj.oid in st.heap:
+                obj = obj.w(nt_fields=dict(st.heap[obj.oid]))
         else:
             self.model.ext_base_init(self, st, obj, ci, args, kwargs, n)
         return obj
@@ -1422,13 +1426,25 @@ class Interp:
 
     def _comp_unrolled(self, n, frame, st):
         """Elements of a one-generator comprehension over a short known sequence, evaluated one by one; None if not applicable."""
-        if len(n.generators) != 1 or n.generators[0].ifs:
+        if len(n.generators) != 1:
             return None
         g = n.generators[0]
         it = self.eval(g.iter, frame, st)
         items = known_items(it)
         if items is None:
             return None
+        if g.ifs:
+            # filters are followed only when every test is decided (constant) for every item
+            keep = []
+            for item in items:
+                cst = st.copy()
+                self.assign(g.target, item, frame, cst)
+                verdicts = [self.eval(c, frame, cst) for c in g.ifs]
+                if not all(has_const(v) and isinstance(cval(v), bool) for v in verdicts):
+                    return None
+                if all(cval(v) for v in verdicts):
+                    keep.append(item)
+            items = keep
         out = []
         for item in items:
             cst = st.copy()
